@@ -43,12 +43,12 @@ func init() {
 							if !ok {
 								return false
 							}
-							ch, ok := c.Call.Args[2].(*ssa.Call)
+							ch, ok := callArgs(c)[2].(*ssa.Call)
 							if !ok || !calleeIs(ch, "gabi.createChallenge") {
 								return false
 							}
-							ar := ch.Call.Args
-							return desc(c.Call.Args[0]) == "<gabi.ProofU>" && desc(ar[0]) == "arg#2" && desc(ar[1]) == "arg#3" && desc(ar[3]) == "false" &&
+							ar := callArgs(ch)
+							return desc(callArgs(c)[0]) == "<gabi.ProofU>" && desc(ar[0]) == "arg#2" && desc(ar[1]) == "arg#3" && desc(ar[3]) == "false" &&
 								desc(ar[2]) == "call:"+kProofUCC+"(<gabi.ProofU>,<gabikeys.PublicKey>)#0"
 						}})
 				}
@@ -103,7 +103,7 @@ func constructCredentialRule(P *Program, R *Report) {
 		if !ok {
 			return false
 		}
-		ar := c.Call.Args
+		ar := callArgs(c)
 		return desc(ar[0]) == ismD+".Proof" && desc(ar[1]) == cbD+".pk" && desc(ar[2]) == ismD+".Signature" && desc(ar[3]) == cbD+".context" && desc(ar[4]) == cbD+".nonce2"
 	}})
 	var msVal ssa.Value
@@ -112,7 +112,7 @@ func constructCredentialRule(P *Program, R *Report) {
 		if !ok {
 			return false
 		}
-		ar := c.Call.Args
+		ar := callArgs(c)
 		if desc(ar[0]) == "new:gabi.CLSignature" && desc(ar[1]) == cbD+".pk" {
 			msVal = ar[2]
 			return true
@@ -131,11 +131,11 @@ func constructCredentialRule(P *Program, R *Report) {
 	noWitness := func(a Atom) bool { return desc(a.V) == ismD+".NonRevocationWitness" && a.Want == Nil }
 	mp(P, R, rule, kConstruct+":witness-verified", "credential with a witness => Witness.Verify(b.pk) returned nil", fn, acc, &MustPass{Exempt: noWitness, Match: func(a Atom) bool {
 		c, ok := callAtom(a, Nil, "revocation.(*Witness).Verify")
-		return ok && desc(c.Call.Args[0]) == ismD+".NonRevocationWitness" && desc(c.Call.Args[1]) == cbD+".pk"
+		return ok && desc(callArgs(c)[0]) == ismD+".NonRevocationWitness" && desc(callArgs(c)[1]) == cbD+".pk"
 	}})
 	mp(P, R, rule, kConstruct+":witness-bound", "credential with a witness => NonrevIndex() of the new credential succeeded (the witness' e is one of the signed attributes)", fn, acc, &MustPass{Exempt: noWitness, Match: func(a Atom) bool {
 		c, idx := callAndResult(a.V)
-		return c != nil && calleeIs(c, "gabi.(*Credential).NonrevIndex") && idx == 1 && a.Want == Nil && desc(c.Call.Args[0]) == "new:gabi.Credential"
+		return c != nil && calleeIs(c, "gabi.(*Credential).NonrevIndex") && idx == 1 && a.Want == Nil && desc(callArgs(c)[0]) == "new:gabi.Credential"
 	}})
 	// NonrevIndex itself: succeeds only if some attribute equals the witness' E
 	if ni := mustFunc(P, R, rule, "gabi.(*Credential).NonrevIndex"); ni != nil {
@@ -166,7 +166,7 @@ func assembledSignatureRule(P *Program, R *Report) {
 	var msDesc string
 	for _, c := range callsIn(fn) {
 		if isCallTo(c, kCLVerify) {
-			msDesc = desc(c.Common().Args[2])
+			msDesc = desc(callArgs(c)[2])
 		}
 	}
 	for _, row := range []struct{ f, want string }{{"Pk", cbD + ".pk"}, {"Signature", "new:gabi.CLSignature"}, {"Attributes", msDesc}, {"NonRevocationWitness", ismD + ".NonRevocationWitness"}} {
@@ -188,7 +188,7 @@ func blindSumRule(P *Program, R *Report) {
 	var msVal ssa.Value
 	for _, c := range callsIn(fn) {
 		if isCallTo(c, kCLVerify) {
-			msVal = c.Common().Args[2]
+			msVal = callArgs(c)[2]
 		}
 	}
 	if msVal == nil {
@@ -267,7 +267,7 @@ func hashRoles(P *Program, fn *ssa.Function) (call *ssa.Call, elems []SeqElem, t
 	if call == nil {
 		return nil, nil, nil, false
 	}
-	elems, ok = seqOf(call.Call.Args[0])
+	elems, ok = seqOf(callArgs(call)[0])
 	if !ok {
 		return call, nil, nil, false
 	}
@@ -308,7 +308,7 @@ func proofSRule(P *Program, R *Report) {
 	for i := range want {
 		R.decide(rule, fmt.Sprintf("%s:role%d:%s", kProofSVer, i, names[i]), "hashed element "+fmt.Sprint(i)+" is "+names[i], terms[i].equal(want[i]), "got "+terms[i].String()+" want "+want[i].String(), P.Pos(call.Pos()))
 	}
-	R.decide(rule, kProofSVer+":issig", "ProofS is hashed without the signature-session marker", desc(call.Call.Args[1]) == "false", desc(call.Call.Args[1]), P.Pos(call.Pos()))
+	R.decide(rule, kProofSVer+":issig", "ProofS is hashed without the signature-session marker", desc(callArgs(call)[1]) == "false", desc(callArgs(call)[1]), P.Pos(call.Pos()))
 	mp(P, R, rule, kProofSVer+":C==hash", "accept => p.C compared equal to that hash", fn, AcceptTrue(0), &MustPass{Match: func(a Atom) bool {
 		x, y, ok := parseEq(a)
 		if !ok {
@@ -338,7 +338,7 @@ func proveSignatureRule(P *Program, R *Report) {
 	for i := range want {
 		R.decide(rule, fmt.Sprintf("%s:role%d:%s", kProveSig, i, names[i]), "hashed element "+fmt.Sprint(i)+" is "+names[i], terms[i].equal(want[i]), "got "+terms[i].String()+" want "+want[i].String(), P.Pos(call.Pos()))
 	}
-	R.decide(rule, kProveSig+":issig", "hashed without the signature-session marker", desc(call.Call.Args[1]) == "false", "", P.Pos(call.Pos()))
+	R.decide(rule, kProveSig+":issig", "hashed without the signature-session marker", desc(callArgs(call)[1]) == "false", "", P.Pos(call.Pos()))
 	// response
 	be := P.bigEval(fn)
 	order := tsym("<gabi.Issuer>.Sk.Order")
@@ -370,7 +370,7 @@ func blindConventionRule(P *Program, R *Report) {
 		allInstrs(fn, func(i ssa.Instruction) {
 			if mu, isMU := i.(*ssa.MapUpdate); isMU && desc(mu.Key) == "(arg#5[#i]+1)" {
 				if c, idx := callAndResult(mu.Value); c != nil && idx == 0 && calleeIs(c, "common.RandomBigInt") {
-					a, _ := affineOf(c.Call.Args[0])
+					a, _ := affineOf(callArgs(c)[0])
 					ok = a.String() == "Lm-1"
 				}
 			}
@@ -409,7 +409,7 @@ func blindConventionRule(P *Program, R *Report) {
 		allInstrs(fn, func(i ssa.Instruction) {
 			if mu, isMU := i.(*ssa.MapUpdate); isMU && desc(mu.Key) == "(arg#3[#i]+1)" {
 				if c, idx := callAndResult(mu.Value); c != nil && idx == 0 && calleeIs(c, "common.RandomBigInt") {
-					a, _ := affineOf(c.Call.Args[0])
+					a, _ := affineOf(callArgs(c)[0])
 					okIdx = a.String() == "Lm-1"
 				}
 			}
